@@ -76,7 +76,8 @@ func dump(v reflect.Value, sb *strings.Builder, depth int) {
 	}
 }
 
-func dumpOf(x any) string {
+// DumpOf renders any value canonically (types, field names, values; nil and empty slices alike).
+func DumpOf(x any) string {
 	var sb strings.Builder
 	dump(reflect.ValueOf(x), &sb, 0)
 	return sb.String()
@@ -212,9 +213,9 @@ func copyFacts(w *tr.Writer, hid int, text string, node any, copyOf func(any) an
 				ev["panicmsg"] = fmt.Sprint(r)
 			}
 		}()
-		before := dumpOf(node)
+		before := DumpOf(node)
 		c := copyOf(node)
-		ev["equal"] = dumpOf(c) == before && reflect.TypeOf(c) == reflect.TypeOf(node)
+		ev["equal"] = DumpOf(c) == before && reflect.TypeOf(c) == reflect.TypeOf(node)
 		a, b := mutableParts(node), mutableParts(c)
 		shared := 0
 		for addr, where := range a {
@@ -227,13 +228,13 @@ func copyFacts(w *tr.Writer, hid int, text string, node any, copyOf func(any) an
 		}
 		ev["shared"] = shared
 		ev["mutations"] = mutate(c)
-		ev["orig_unchanged"] = dumpOf(node) == before
+		ev["orig_unchanged"] = DumpOf(node) == before
 		// and the other way round, on a fresh pair, leaving the caller's model as it was
 		o2 := copyOf(node)
 		c2 := copyOf(o2)
-		mid := dumpOf(c2)
+		mid := DumpOf(c2)
 		mutate(o2)
-		ev["copy_unchanged"] = dumpOf(c2) == mid
+		ev["copy_unchanged"] = DumpOf(c2) == mid
 	}()
 	w.Emit(ev)
 }
